@@ -350,4 +350,9 @@ def monPosted (recv paid bonus : Int) (pDebt : Dec) (decD : Int) (pColl : Dec) (
 def roundingSmall (pColl : Dec) (decC : Int) : Bool :=
   decide (0 < pColl) && decide (0 < decC) && decide (decC * (pColl + Dec.P) ≤ pColl * Dec.P)
 
+/-- side condition for the bound of the amount charged when the collateral is exhausted (debt side: one debt unit is worth
+at least ~two ulps): `decD·(pDebt + 10¹⁸)·(10¹⁸ + 2) ≤ pDebt·10³⁶` -/
+def roundingSmallBack (pDebt : Dec) (decD : Int) : Bool :=
+  decide (0 < pDebt) && decide (decD * (pDebt + Dec.P) * (Dec.P + 2) ≤ pDebt * (Dec.P * Dec.P))
+
 end Comdex.DutchV2
